@@ -1,6 +1,11 @@
 """Helpers of the C13 check (harness/props/c13.py): a richer family of comments for the layout mutants, the re-declaration
 probes and the load()-option history probes.  Every evaluator below takes plain data (texts, option dictionaries, names) and
 returns a list of problem descriptions, so that the generator in c13.run and c13.replay share the same predicate.
+
+Round 3: the re-declaration environments also bind names to targets without a positive byte size — zero-sized (empty struct / union,
+void, zero-length array typedefs) and dynamically sized ones (structures with member-sized / null-terminated / LEB128 members, LEB128 and
+null-terminated array typedefs) — and aliases of them (ZERO_NAMES, DYN_NAMES); a re-declaration may also go through the API
+(`"@add_type|X|T|ref"` = cs.add_type("X", "T"), `...|obj` = cs.add_type("X", cs.resolve("T"))).
 """
 from __future__ import annotations
 
@@ -84,7 +89,11 @@ def comment_features(text: str) -> list[str]:
 # re-declaration probes
 # --------------------------------------------------------------------------------------------------------------------
 SCALARS = ["uint8", "int16", "uint32", "uint64", "char", "int24", "unsigned int", "long long", "DWORD", "unsigned short", "float", "long", "BYTE", "int"]
-BUILTIN_NAMES = ["uint32", "DWORD", "char", "int", "uint8", "BYTE", "WORD", "uint16"]
+BUILTIN_NAMES = ["uint32", "DWORD", "char", "int", "uint8", "BYTE", "WORD", "uint16", "void", "uleb128"]
+# names the environment binds to targets without a positive byte size: zero-sized (empty struct / union, void, zero-length arrays) and
+# dynamically sized ones (structures with member-sized / null-terminated arrays, LEB128, null-terminated array typedefs)
+ZERO_NAMES = ["Z0", "Z1", "Z2", "V0", "V1", "P0", "P1", "ZA"]
+DYN_NAMES = ["D0", "D1", "D2", "L0", "L1", "T0", "T1", "DA"]
 LOAD_OPTS = [{}, {}, {"compiled": False}, {"compiled": True}, {"align": True}]
 
 
@@ -121,25 +130,60 @@ def gen_environment(rnd):
             ("typedef A2 A3;", ["A3"])]
     rnd.shuffle(tail)
     head, body = decls[:2], decls[2:]
+    # targets without a positive byte size (sizeless): zero-sized and dynamically sized ones, and aliases of them
+    special = []
+    zk = rnd.choice(["struct", "struct", "union"])
+    special.append(([(f"{zk} Z0 {{ }};", ["Z0"])], [("typedef Z0 Z1;", ["Z1"]), (f"typedef {zk} Z0 Z2;", ["Z2"])]))
+    special.append(([(f"typedef void V0;", ["V0"])], [("typedef V0 V1;", ["V1"])]))
+    special.append(([(f"typedef {rnd.choice(['uint8', 'uint32', 'char', 'A1', 'S'])} P0[{rnd.choice(['0', '0x0', '1 - 1'])}];", ["P0"])], [("typedef P0 P1;", ["P1"])]))
+    special.append(([(f"typedef {rnd.choice(['struct', 'union'])} {{ }} ZA;", ["ZA"])], []))
+    dyn_body = rnd.choice(["uint8 n; char d[n];", "uint16 k; char s[];", "uint8 n; uint16 d[n * 2]; uint8 t;", "uleb128 v;", "uint8 n; A1 d[n & 3];",
+                           "wchar w[]; uint8 t;", "uint8 n; S d[n];"])
+    special.append(([(f"struct D0 {{ {dyn_body} }};", ["D0"])], [("typedef D0 D1;", ["D1"]), ("typedef struct D0 D2;", ["D2"])]))
+    special.append(([(f"typedef {rnd.choice(['uleb128', 'ileb128'])} L0;", ["L0"])], [("typedef L0 L1;", ["L1"])]))
+    special.append(([(f"typedef {rnd.choice(['char', 'uint16', 'wchar', 'A2'])} T0[];", ["T0"])], [("typedef T0 T1;", ["T1"])]))
+    special.append(([(f"typedef struct {{ uint8 n; uint8 d[n]; }} DA;", ["DA"])], []))
+    rnd.shuffle(special)
+    for first, later in special[: rnd.randint(3, len(special))]:
+        body += first
+        tail += [t for t in later if rnd.random() < 0.6]
     rnd.shuffle(body)
+    rnd.shuffle(tail)
+    # members of S / D0 / P0 may use A1 and S: keep S in front of the declarations that use it
+    body.sort(key=lambda d: 0 if d[1] == ["S"] else 1)
     return head + body + tail[: rnd.randint(2, len(tail))]
 
 
 def gen_redeclaration(rnd, cs, dc, env_names, k: int):
     """one re-declaration of a bound name: (text, form, name, 'same' | 'different', names the text introduces besides `name`).
     `cs` is an instance that holds the environment; same/different is decided by the identity of the resolved types."""
-    structs = [n for n in env_names if n in ("S", "_Q", "Q", "QQ", "QQQ", "AN", "S2", "S3", "Q2", "AN2")]
-    form = rnd.choice(["alias", "alias", "alias-same", "alias-same", "tag-body", "tag-body", "tag-body", "body-name", "body-names", "anon-name", "plain", "plain", "enum"])
-    targets = env_names + BUILTIN_NAMES
+    structs = [n for n in env_names if issubclass(cs.resolve(n), dc.Structure)]
+    form = rnd.choice(["alias", "alias", "alias-same", "alias-same", "tag-body", "tag-body", "tag-body", "body-name", "body-names", "anon-name", "plain", "plain", "enum",
+                       "api", "api", "api-same"])
+    sizeless = [n for n in env_names if n in ZERO_NAMES or n in DYN_NAMES]
+    targets = env_names + BUILTIN_NAMES + sizeless
     X = rnd.choice(targets)
     zz = f"zz{k}_"
-    if form in ("alias", "alias-same"):
-        pool = env_names + SCALARS + BUILTIN_NAMES
-        if form == "alias-same":
+    if form in ("alias", "alias-same", "api", "api-same"):
+        pool = env_names + SCALARS + BUILTIN_NAMES + sizeless
+        if form.endswith("-same"):
             same = [t for t in pool if cs.resolve(t) is cs.resolve(X)]
             T = rnd.choice(same)
         else:
             T = rnd.choice(pool)
+        if form.startswith("api"):
+            # through the API: cs.add_type(X, "T") (a reference by name) or cs.add_type(X, <the type object T resolves to>)
+            # (a reference whose chain of names leads back to X would declare a cyclic alias: the type object is passed instead)
+            mode = rnd.choice(["ref", "obj"])
+            n = T
+            for _ in range(20):
+                if n == X:
+                    mode = "obj"
+                n = cs.typedefs.get(n)
+                if not isinstance(n, str):
+                    break
+            text = f"@add_type|{X}|{T}|{mode}"
+            return text, "add_type", X, "same" if cs.resolve(T) is cs.resolve(X) else "different", []
         kw = ""
         if T in structs and rnd.random() < 0.4:
             kw = "union " if issubclass(cs.resolve(T), dc.Union) else "struct "
@@ -178,7 +222,7 @@ def eval_redeclaration(dc, describe, env_loads, probe_text, probe_opts, expect, 
     ref_objs = {n: ref.resolve(n) for n in names}
     ref_desc = {n: describe(ref_objs[n]) for n in names}
     ref_part = _partition(ref_objs)
-    if same_text:
+    if same_text and not probe_text.startswith("@"):
         cs = dc.cstruct()
         loads = list(env_loads[:-1]) + [(env_loads[-1][0] + "\n" + probe_text, env_loads[-1][1])]
         before = None
@@ -189,7 +233,12 @@ def eval_redeclaration(dc, describe, env_loads, probe_text, probe_opts, expect, 
     outcome = "accepted"
     try:
         for text, opts in loads:
-            cs.load(text, **opts)
+            if text.startswith("@add_type|"):
+                _, X, T, mode = text.split("|")
+                probe_text = f"cs.add_type({X!r}, " + (repr(T) if mode == "ref" else f"cs.resolve({T!r})") + ")"
+                cs.add_type(X, T if mode == "ref" else cs.resolve(T))
+            else:
+                cs.load(text, **opts)
     except Exception as e:  # noqa: BLE001
         outcome = f"rejected:{type(e).__name__}"
     if expect == "different" and outcome == "accepted":
